@@ -13,6 +13,7 @@ class Part(Symbol):
     tag: int = 0
     label: str = ""
     sub: Optional["Part"] = None
+    links: List["Part"] = field(default_factory=list)
 
 
 @dataclass(eq=False)
